@@ -714,12 +714,20 @@ def task(t, res):
         run_seed(t["spec"], res)
     elif kind == "unsliced":
         run_unsliced(res)
+    elif kind == "history":
+        from . import c15_hist
+
+        c15_hist.history_task(t, res)
     else:
         raise ValueError(kind)
 
 
 def replay(d, res):
     kind = d["kind"]
+    if kind == "history":
+        from . import c15_hist
+
+        return c15_hist.replay(d, res)
     if kind == "slice":
         run_slice(d["spec"], res, only=set(d.get("only") or []))
     elif kind == "cross":
@@ -844,6 +852,11 @@ def task_list(tier):
     tasks += [dict(kind="elements", families=[f]) for f in ELEMENT_FAMILIES]
     tasks += [dict(kind="legacy")]
     tasks += [dict(kind="seed", spec=dict(seed_spec(), seed=s)) for s in SEEDS]
+    from . import c15_hist
+
+    nf = len(c15_hist.fps())
+    for fi in range(nf):
+        tasks.append(dict(kind="history", fis=[fi], depth=3 if (not quick or fi % 6 == 0) else 2))
     for i, t in enumerate(tasks):
         t["tid"] = i
     return tasks
@@ -933,6 +946,9 @@ def run(ctx):
             note="informational, not an oracle: name == string formatting over the parameters and hash == blake2b(name) mod 2^61-1 "
                  "(no use of the seeded built-in str hash), which extends hash stability from the 5 tested PYTHONHASHSEED values to all"),
         full_space_names_hashes=not ctx.quick, unsliced_get_all_tokenizers=not ctx.quick,
+        use_histories=dict(histories=c.get("use_histories", 0), tokenizers="pairwise-covering full tokenizers (c06.covering_full)",
+                           alphabet="5 uses (tokenize L/T/S maze, tokenize with another tokenizer sharing the element objects, encode+decode) + 8 observations",
+                           depth="2 (3 for every 6th tokenizer)" if ctx.quick else "3"),
     )
     ctx.rule = ("one evaluation = one object yielded by the real all_instances/get_all_tokenizers in one slice (or one legacy mode / one "
                 "configuration in one PYTHONHASHSEED child), judged against the reference product; distinct_nontrivial counts distinct "
